@@ -188,49 +188,87 @@ def run(ctx, rep):
     bm = E.expand(bf, 'must')
     bmay = E.expand(bf, 'may')
     closes = [e for e in bm if e.kind == 'QPUSH_BACK']
-    pops = [e for e in bmay if e.kind == 'QPOP_FRONT']
     order = [id(e) for e in bm]
-    ok = len(closes) == 1 and len(pops) == 1
+    ok = len(closes) == 1
     if ok:
         mp = [e for e in bm if e.kind == 'QPOP_FRONT']
-        ok = bool(mp) and order.index(id(closes[0])) < order.index(id(mp[0]))
+        if mp:
+            ok = order.index(id(closes[0])) < order.index(id(mp[0]))
+        else:
+            # front taken through acc.into_iter().next(): the conversion must happen after the close
+            conv = [c for c in bf.calls if c.decl == 'std::iter::IntoIterator::into_iter' and strip(sl.operand(bf, c.args[0]))[0] == 'field' and strip(sl.operand(bf, c.args[0]))[2] == 'acc']
+            top_close = closes[0].chain[0] if closes[0].chain else closes[0].call
+            ok = len(conv) == 1 and bf.dominates(top_close.bb, conv[0].bb)
     rep.check(ok, 'R4', 'build/head', '%s:%d' % (bf.file, bf.line), 'build() always closes the current group (even an empty one), then takes the front group as top level',
               'build() does not unconditionally close the current group before taking the front of the queue: a trailing (empty) alternative can be lost')
     bad = [e for e in bmay + E.expand(orf, 'may') if e.kind in ('QPUSH_FRONT', 'QPOP_BACK')]
     rep.check(not bad, 'R4', 'fifo', '%s:%d' % (bf.file, bf.line), 'groups are only appended at the back and taken from the front', 'queue used out of FIFO order: %s' % [e.call.name for e in bad[:2]])
-    # top-level provides/requires <- head.0/.1 ; Or{provides <- alt.0, requires <- alt.1}; iteration in order
+    # top-level group <- front element (.0 / .1); remaining elements mapped in order to Or{provides <- .0, requires <- .1}.
+    # Accepted idioms: pop_front() + `for alt in acc { or.push(Or{..}) }`, or acc.into_iter(): next() + map(..).collect()
     reach = [bf] + [f for f in prog.reach([bf]).values() if f.path != bf.path and f.crate == 'libcnb_data']
+
+    def front_elem(v):
+        """v is the element taken from the FRONT of the queue: unwrap(pop_front(acc)) / unwrap(next(into_iter(acc)))"""
+        v = strip(v)
+        if v[0] == 'call' and v[1].endswith('::pop_front'):
+            return True
+        if v[0] == 'call' and v[1] == 'std::iter::Iterator::next':
+            src = strip(v[2][0])
+            return (src[0] == 'field' and src[2] == 'acc') or (src[0] == 'call' and src[1].endswith('into_iter'))
+        return False
     top = {}
-    ors = []
-    pushes = []
     for f in reach:
+        vals = []
         for key, defs in f.defs().items():
             if isinstance(key, tuple):
                 for d in defs:
                     if d[0] == 'stmt' and f.locals[d[4][0]].get('head') == 'libcnb_data::build_plan::BuildPlan':
                         fld = [p_ for p_ in d[4][1:] if p_ != '*'][0]
-                        v = strip(sl._rvalue(f, d[3], set(), 0, None))
-                        top[fld] = v[2] if v[0] == 'field' and any(x[0] == 'call' and x[1].endswith('pop_front') for x in walk(v)) else vstr(v)[:50]
+                        vals.append((fld, sl._rvalue(f, d[3], set(), 0, None)))
+        for b in f.blocks:
+            for st in b['s']:
+                if st[0] == '=' and st[2]['r'] == 'agg' and st[2].get('adt') == 'libcnb_data::build_plan::BuildPlan':
+                    v = sl._rvalue(f, st[2], set(), 0, None)
+                    vals += [('.' + n, fv) for n, fv in v[3]]
+        for fld, v in vals:
+            v0 = strip(v)
+            if fld in ('.provides', '.requires') and v0[0] == 'field' and front_elem(v0[1]):
+                top[fld] = v0[2]
+    rep.check(top.get('.provides') == '0' and top.get('.requires') == '1', 'R4', 'build/top-level', '%s:%d' % (bf.file, bf.line),
+              'top level provides <- front.0, requires <- front.1', 'top-level group is assigned from %s' % top)
+    ors = []
+    for f in reach + [g for f0 in reach for g in prog.closures_of(f0)]:
         for b in f.blocks:
             for st in b['s']:
                 if st[0] == '=' and st[2]['r'] == 'agg' and st[2].get('adt') == 'libcnb_data::build_plan::Or':
                     ors.append((f, st))
-        pushes += [(f, c) for c in f.calls if c.name == 'std::vec::Vec::<T, A>::push' and f.locals[c.args[0].get('m', c.args[0].get('c', [0]))[0]]['ty'].endswith('Or>')]
-    rep.check(top.get('.provides') == '0' and top.get('.requires') == '1', 'R4', 'build/top-level', '%s:%d' % (bf.file, bf.line),
-              'top level provides <- head.0, requires <- head.1', 'top-level group is assigned from %s' % top)
     ok = len(ors) == 1
+    how = None
     if ok:
         f, st = ors[0]
         v = sl._rvalue(f, st[2], set(), 0, None)
         fl = dict(v[3])
         p_, r_ = strip(fl['provides']), strip(fl['requires'])
-        it_ok = all(x[0] == 'field' and x[2] == i and any(y[0] == 'call' and y[1] == 'std::iter::Iterator::next' for y in walk(x)) for x, i in ((p_, '0'), (r_, '1')))
-        rev = any(y[0] == 'call' and 'rev' in y[1].split('::')[-1].lower() for y in walk(v))
-        ok = it_ok and not rev
-    rep.check(ok, 'R4', 'build/alternatives', '%s:%d' % (bf.file, bf.line), 'remaining groups mapped in order to Or{provides <- .0, requires <- .1}',
+        same = p_[0] == 'field' and r_[0] == 'field' and p_[2] == '0' and r_[2] == '1' and strip(p_[1]) == strip(r_[1])
+        elem = strip(p_[1]) if same else ('unknown',)
+        if same and elem[0] == 'call' and elem[1] == 'std::iter::Iterator::next':
+            how = 'loop'
+            in_loop = [c for c in f.calls if c.name == 'std::vec::Vec::<T, A>::push' and f.in_loop(c.bb)]
+            ok = len(in_loop) == 1
+        elif same and elem[0] == 'param' and f.kind == 'Closure':
+            # closure handed to Iterator::map whose result is collected
+            parent = prog.fns.get(f.parent)
+            mp = [c for c in (parent.calls if parent else []) if c.decl == 'std::iter::Iterator::map' and any(y[0] == 'closure' and y[1] == f.path for y in walk(sl.operand(parent, c.args[1])))]
+            how = 'map-collect'
+            ok = len(mp) == 1 and any(c.decl == 'std::iter::Iterator::collect' for c in parent.calls)
+        else:
+            ok = False
+        names = [c.decl or '' for g in reach for c in g.calls if (c.decl or '').startswith(('std::iter::Iterator::', 'std::iter::DoubleEndedIterator::'))]
+        names += [c.name or '' for g in reach for c in g.calls if (c.name or '').startswith(('std::collections::VecDeque', 'core::slice::', 'std::vec::Vec'))]
+        ok = ok and not any(n.split('::')[-1] in ('rev', 'reverse', 'sort', 'sort_by', 'sort_by_key', 'filter', 'filter_map', 'skip', 'take', 'step_by', 'dedup',
+                                                   'rotate_left', 'rotate_right', 'swap', 'make_contiguous') for n in names)
+    rep.check(ok, 'R4', 'build/alternatives', '%s:%d' % (bf.file, bf.line), 'every remaining group mapped in order to Or{provides <- .0, requires <- .1} (%s)' % how,
               'alternatives are not mapped one-to-one in order')
-    vp = [c for f, c in pushes if f.in_loop(c.bb)]
-    rep.check(len(vp) == 1, 'R4', 'build/push-each', '%s:%d' % (bf.file, bf.line), 'each alternative pushed once', 'or-list is not built by one push per alternative')
     # ---- R5 ------------------------------------------------------------------------------------------
     w = prog.fn('libcnb_common::toml_file::write_toml_file')
     rep.analysed(w)
